@@ -20,14 +20,7 @@ def ref_dataset_specs(draw, max_levels=3, max_leaves=7, min_levels=1, min_leaves
                       n_genes=None, cells_per=None):
     """separable clusters by construction (recipe of DESIGN 1.1 'Reference cells')"""
     tree = draw(gen.trees(max_levels=max_levels, max_leaves=max_leaves, min_levels=min_levels,
-                          allow_odd=False, mappers=False))
-    lv = tree['hierarchy'][-1]
-    tries = 0
-    while len(tree[lv]) < min_leaves and tries < 5:
-        tree = draw(gen.trees(max_levels=max_levels, max_leaves=max_leaves, min_levels=min_levels,
-                              allow_odd=False, mappers=False))
-        lv = tree['hierarchy'][-1]
-        tries += 1
+                          allow_odd=False, mappers=False, min_leaves=min_leaves))
     return {
         'tree': tree,
         'n_genes': n_genes or draw(st.integers(16, 30)),
